@@ -5,7 +5,7 @@ import Ekit.Model.SegmentLock
 Trace acceptor for C14 (syncx.LimitPool, syncx.SegmentKeysLock).  Producer: harness/syncx/main.go.
 
 LimitPool cases
-    new limit <max>                         => ok tokens=<n> created=<c>
+    new limit <max> [kind=ptr|int0|unit|str0|val]  => ok tokens=<n> created=<c>   (element type of the pool; zero-valued kinds included)
     get <t>                                 => true|false tokens=<n> created=<c>
     put <t>                                 => ok tokens=<n> created=<c>   |  skip      (nothing borrowed)
     new limitstress max=<m> g=<g> iters=<n> => hw=<h> finalgets=<f> extra=fail|ok …
@@ -127,7 +127,7 @@ def checker (model : Bool) : Checker where
     -- neither object may panic inside the property's quantifier (size ≥ 1, maxTokens ≥ 0)
     if res.startsWith "panic" then (st, some s!"the call panicked: {obs}") else
     match ws with
-    | "new" :: "limit" :: [m] =>
+    | "new" :: "limit" :: m :: _kind =>   -- optional `kind=<element type>`: the bookkeeping is the same for every T
       match parseInt? m with
       | some max =>
         let cfg := limitCfg max
